@@ -11,6 +11,7 @@ import Driver.Adds
 import Driver.Roundtrip
 import Driver.Parse
 import Driver.Comp
+import Driver.SideFx
 open Driver
 
 def step (line : String) : List String :=
@@ -28,6 +29,7 @@ def step (line : String) : List String :=
   | "roundtrip" :: rest => runRoundtrip rest
   | "parse" :: rest => runParse rest
   | "comp" :: rest => runComp rest
+  | "sidefx" :: rest => runSideFx rest
   | [] => []
   | f :: _ => [s!"{f} ? unknown-family"]
 
